@@ -328,6 +328,26 @@ def gen(run_seed, tier):
             if r.random() < p_pause:
                 ops.append(_pause(r))
 
+    # the same peer connects again right behind the end of its previous attempt (no loop step between):
+    # the done-callbacks of the old writer are still queued when the new one registers under the same key
+    for i, w in enumerate(writers):
+        js = [j for j in range(i) if writers[j]['key'] == w['key']]
+        if not js or r.random() >= 0.55:
+            continue
+        oi = next((k for k, o in enumerate(ops) if o.get('op') == 'open' and o.get('w') == i), None)
+        if oi is None:
+            continue
+        op = ops.pop(oi)
+        ends = [k for k, o in enumerate(ops) if o.get('w') == js[-1] and o.get('op') in ('write', 'abort')]
+        if not ends:
+            ops.insert(oi, op)
+            continue
+        ops.insert(ends[-1] + 1, op)
+        if r.random() < 0.7:
+            # its own chunks follow later (earlier write ops of a not yet opened writer are skipped)
+            for s_ in chunks.get(i, []):
+                ops.insert(r.randint(ends[-1] + 2, len(ops)), {'op': 'write', 'w': i, 'len': s_})
+
     fam = sut + ('-cd' if disrupted else '')
     return {'family': fam, 'sut': sut, 'mgr_buffer': sut == 'manager' and r.random() < 0.2,
             'n': n, 'content_seed': r.getrandbits(48), 'hash_mode': hash_mode, 'declared': declared,
@@ -818,6 +838,11 @@ def execute(scenario, keep_trace=False):
             if run.violations:
                 return
             run.ev('state', blob.get_is_verified(), stored_state())
+            if kind == 'spin' and m['closes'] + m['deletes'] == 0:
+                reg = list(blob.writers.values())
+                for w in W.values():
+                    if not w.obj.closed() and not w.obj.finished.done() and not any(o is w.obj for o in reg):
+                        run.probes['pending_writer_evicted_from_map'] += 1
 
         # ---- quiescence: nothing of the SUT left in the ready queue or the timer heap ---------------
         for k in range(200):
@@ -854,7 +879,6 @@ def execute(scenario, keep_trace=False):
                     run.violation('C01.callback_twice', f'{len(m["callbacks"])} completion callbacks for one '
                                   f'verification', sut=sut)
                     return
-                keys = [w.key for w in W.values()]
                 for i, w in sorted(W.items()):
                     if i == strict['w'] or w.open_seq >= strict['seq']:
                         if w.open_seq >= strict['seq'] and not w.obj.closed():
@@ -862,12 +886,17 @@ def execute(scenario, keep_trace=False):
                         continue
                     run.probes['losers_checked'] += 1
                     if not w.obj.closed() or not w.obj.finished.done():
+                        # site: did this writer register under a peer key an earlier writer had used?  (a stale
+                        # remove_writer callback of the earlier one can evict it from blob.writers)
+                        reused = any(x.key == w.key and x.open_seq < w.open_seq for x in W.values())
                         run.violation('C01.loser_not_closed',
                                       f'writer {i} (peer {w.key}, opened at op {w.open_seq}, {w.pos} bytes written) is '
-                                      f'still open (closed={w.obj.closed()}, finished.done={w.obj.finished.done()}) '
+                                      f'still open (closed={w.obj.closed()}, finished.done={w.obj.finished.done()}, '
+                                      f'in blob.writers={any(o is w.obj for o in blob.writers.values())}) '
                                       f'after writer {strict["w"]} delivered a complete correct copy at op '
-                                      f'{strict["seq"]}', what='open' if not w.obj.closed() else 'future_pending',
-                                      dup_key=keys.count(w.key) > 1, sut=sut)
+                                      f'{strict["seq"]} and the blob became verified'
+                                      f'{"; its peer key had been used by an earlier writer" if reused else ""}',
+                                      what='open' if not w.obj.closed() else 'future_pending', peer_key_reused=reused)
                         return
             else:
                 run.probes['i5_checked'] += 1
